@@ -46,6 +46,7 @@ type G = gs::Behaviour<gs::IdentityTransform, gs::AllowAllSubscriptionFilter>;
 const TOPICS: [&str; 3] = ["t0", "t1", "t2"];
 const MAX_REMOTE_BACKOFF: u64 = 3600;
 const PUBLISH_THRESHOLD: f64 = -50.0;
+const FANOUT_TTL_S: u64 = 60;
 
 #[derive(Clone, Default)]
 struct Snap {
@@ -78,6 +79,8 @@ struct Mon {
     ineligible_seen: u64,
     joined_left_events: u64,
     fanout_removals_checked: u64,
+    /// virtual time of the last successful publish through the fanout, per topic
+    last_fanout_pub: HashMap<String, Duration>,
     /// the FIFO of RPCs the raw peers sent no longer lines up with what the node processes: the ledger cannot be trusted
     desync: bool,
     single_closes: u64,
@@ -132,6 +135,25 @@ impl Mon {
         if let Some(prev) = self.prev.take() {
             // C35: between heartbeats (and short of a local subscribe, which turns the fanout into a mesh) a fanout
             // peer only leaves the set by becoming ineligible itself (gone, unsubscribed, below the publish threshold)
+            if cause == "heartbeat" {
+                // the heartbeat may expire a whole fanout only when nothing was published to the topic for fanout_ttl
+                // (default 60 s); short of that it only removes peers that became ineligible
+                for (t, before) in &prev.fanout {
+                    let recent = self.last_fanout_pub.get(t).map(|at| now.saturating_sub(*at) < Duration::from_secs(FANOUT_TTL_S)).unwrap_or(false);
+                    if !recent {
+                        continue;
+                    }
+                    let now_set = snap.fanout.get(t).cloned().unwrap_or_default();
+                    for p in before.difference(&now_set) {
+                        self.fanout_removals_checked += 1;
+                        let eligible = snap.peers.get(p).map(|ts| ts.contains(t)).unwrap_or(false) && snap.score.get(p).map(|s| *s >= PUBLISH_THRESHOLD).unwrap_or(true) && !self.explicit.contains(p);
+                        if eligible && snap.mesh.get(t).is_none() {
+                            let who = self.name(p);
+                            self.viol.push(("C35", "fanout-peer-expired-although-recently-published".into(), format!("{who} (still eligible) was dropped from the fanout of {t} by a heartbeat although the last publish to {t} was {}s ago (fanout_ttl {FANOUT_TTL_S}s)", now.saturating_sub(self.last_fanout_pub[t]).as_secs())));
+                        }
+                    }
+                }
+            }
             if !(cause == "heartbeat" || cause.starts_with("local subscribe")) {
                 for (t, before) in &prev.fanout {
                     let now_set = snap.fanout.get(t).cloned().unwrap_or_default();
@@ -553,6 +575,7 @@ fn run_case(rng: &mut Rng) -> Out {
                 rig.net.touch(0);
                 if !subscribed_local.contains(t) && !flood && res.is_ok() {
                     fanout_publishes += 1;
+                    mon.borrow_mut().last_fanout_pub.insert(t.to_string(), gs::verif::clock::offset());
                     let after: BTreeSet<PeerId> = rig.gs(0).verif_fanout(&th).into_iter().collect();
                     for p in &before {
                         let eligible = snap.peers.get(p).map(|ts| ts.contains(t)).unwrap_or(false) && snap.score.get(p).map(|s| *s >= PUBLISH_THRESHOLD).unwrap_or(true) && !mon.borrow().explicit.contains(p);
